@@ -660,15 +660,15 @@ pub fn run_c20(run: &Run) {
 		prefixes.push(s.clone());
 	}
 	run.enumerate("crash-repo-prefixes", prefixes.len() as u64, |i| crash_case(run, &prefixes[i as usize], vec!["repo-prefix".to_owned()]));
-	let n = run.tier.pick(40_000, 1_000_000);
+	let n = run.tier.pick(400_000, 4_000_000);
 	run.explore("crash-random-tokens", n, 5..=16, |src| {
 		let len = src.range(4, 16) as usize;
 		let toks: Vec<&str> = (0..len).map(|_| *src.pick(c06::FULL_ALPHABET)).collect();
 		crash_case(run, &toks.join(" "), vec![])
 	});
-	let n = run.tier.pick(20_000, 500_000);
+	let n = run.tier.pick(200_000, 2_000_000);
 	run.explore("crash-unicode", n, 4..=60, |src| crash_case(run, &unicode_text(src), vec![]));
-	let n = run.tier.pick(20_000, 500_000);
+	let n = run.tier.pick(200_000, 2_000_000);
 	run.explore("crash-mutations", n, 10..=120, |src| {
 		let p = gen_prog(run, src, 3, 0);
 		let mut toks: Vec<String> = c06::lex_tokens(&p.text).into_iter().map(|t| t.1).collect();
@@ -691,7 +691,7 @@ pub fn run_c20(run: &Run) {
 		}
 		crash_case(run, &toks.join(" "), vec!["mutation".to_owned()])
 	});
-	let n = run.tier.pick(6_000, 300_000);
+	let n = run.tier.pick(60_000, 600_000);
 	run.explore("fixpoint-plain", n, 10..=250, |src| fixpoint_case(run, &gen_prog(run, src, 4, 0)));
 	run.explore("fixpoint-decorated", n, 10..=250, |src| fixpoint_case(run, &gen_prog(run, src, 4, 1)));
 	run.explore("fixpoint-item-comments", n, 10..=250, |src| match item_comment_prog(run, src, 4) {
@@ -734,14 +734,14 @@ pub fn run_c19(run: &Run) {
 			run.add_violation("repo-inputs", text, &format!("{name}: {why}"), None, serde_json::Value::Null);
 		}
 	}
-	let n = run.tier.pick(8_000, 300_000);
+	let n = run.tier.pick(120_000, 1_200_000);
 	run.explore("plain", n, 10..=250, |src| preserve_case(run, &gen_prog(run, src, 4, 0)));
 	run.explore("decorated", n, 10..=250, |src| preserve_case(run, &gen_prog(run, src, 4, 1)));
 	run.explore("item-comments", n, 10..=250, |src| match item_comment_prog(run, src, 4) {
 		Some(p) => preserve_case(run, &p).class("item-comments"),
 		None => CaseOut::discard(String::new(), "no multi-line group to decorate"),
 	});
-	let n = run.tier.pick(2_000, 40_000);
+	let n = run.tier.pick(8_000, 80_000);
 	run.explore("evaluated", n, 10..=200, |src| eval_case(run, src));
 	for k in [
 		"node:binary", "node:unary", "node:call", "node:call-named", "node:call-tailstrict", "node:slice", "node:arrcomp", "node:objcomp", "node:objext",
